@@ -17,16 +17,14 @@ each statement, including the loops (`_drain`, `drain`, the strict-order `while`
 namespace WV.Props.PyIRC03
 open WV WV.Gen WV.PyIR WV.C03 WV.Gen.PyIR WV.Proofs.PyIRC03
 
-/-- every method the translator was asked for and could not express in the IR, with the construct; none of them
-    carries C03 data (`Boss.send_status_*` only update the status object; the rest belongs to code entry, the
-    nameplate's wordlist and SPAKE2 timing blocks) -/
+/-- every method the translator was asked for and could not express in the IR, with the construct: local-set
+    building, Deferreds / ClientService, nested functions, a bare `raise`, `**kwargs` parameters.  None of them
+    carries C03 data. -/
 theorem all_translated : WV.Gen.PyIR.untranslatable.map (·.1) =
-    ["Boss.send_status_closed", "Boss.send_status_confirmed_key", "Boss.send_status_peer_key",
-     "Nameplate.I_got_wordlist", "Nameplate.record_nameplate", "Nameplate.record_nameplate_and_RC_tx_claim",
-     "Nameplate.send_status_code_allocated", "Nameplate.send_status_code_consumed",
-     "Allocator.build_and_notify", "Allocator.stash", "Allocator.stash_and_RC_rx_allocate",
-     "Code.do_finish_allocate", "Code.do_set_code", "Code.do_start_input",
-     "_SortedKey.build_pake", "_SortedKey.compute_key"] := by decide
+    ["Input._get_nameplate_completions", "Input.notify_wordlist_waiters", "Input.record_wordlist",
+     "RendezvousConnector._initial_connection_failed", "RendezvousConnector._response_handle_nameplates",
+     "RendezvousConnector._tx", "RendezvousConnector.stop", "RendezvousConnector.ws_close",
+     "RendezvousConnector.ws_open"] := by decide
 
 /-- the per-class method tables and `body` name the same generated definitions -/
 theorem body_is_table :
